@@ -1,5 +1,7 @@
 import QecVerif.Model.Wire
 import QecVerif.Model.Coset
+import QecVerif.Model.PlanarTn
+import QecVerif.Model.DriverC11
 namespace Qec.Drv
 open Qec Qec.Wire Qec.Coset
 
@@ -10,6 +12,16 @@ private def dist4? (a b c d : String) : Option (Dist Int) := do
 
 private def sameLen (m : Nat) (rows : List BVec) : Bool := rows.all fun r => r.length == m
 
+/-- arguments of the planar-network ops: `R C f aI aX aY aZ` with `R, C ≥ 2` (as `PlanarCode` demands) and `f` a bsf of
+    the code's `2n` bits -/
+private def tnArgs? (sR sC sf a b c d : String) : Option (Int × Int × BVec × Dist Int) := do
+  let R ← parseNat? sR
+  let C ← parseNat? sC
+  let f ← parseBits? sf
+  let dist ← dist4? a b c d
+  if R < 2 || C < 2 || f.length != 2 * (Planar.nQubits R C).toNat then none else
+  pure ((R : Int), (C : Int), f, dist)
+
 /-- driver ops of property C10 (first protocol token `c10`).  The scalar type is `Int`: the harness sends the
     numerators of the four probabilities over a common denominator `D` and divides the replies by `D^n`.
 
@@ -19,7 +31,15 @@ private def sameLen (m : Nat) (rows : List BVec) : Bool := rows.all fun r => r.l
       number of Y-only elements of the stabilizer group;
     * `syndprob S s m aI aX aY aZ` → `n`: Σ over all errors of length m with syndrome s;
     * `success S m aI aX aY aZ T`  (T = rows `syndrome recovery` pairs flattened: syndrome/recovery/…)
-      → `n`: success probability of the table decoder (recovery `zeros` for syndromes not in T). -/
+      → `n`: success probability of the table decoder (recovery `zeros` for syndromes not in T);
+    * `tn R C f aI aX aY aZ` → `ok (2R-1)x(2C-1) sites`: the planar MPS decoder's network `planarTn` (Model/PlanarTn.lean),
+      every tensor as `n.e.s.w:entries` (numpy C order, integer numerators over `D`; deltas as they are), row-major,
+      joined by `;` (the C11 wire format);
+    * `tnvalue R C f aI aX aY aZ` → `ok s v`: the model of `mps2d.contract` (C11, exact) applied to that network;
+    * `tnexact R C f aI aX aY aZ` → `ok v`: the literal sum over all bond-index assignments (`exactValue`; 2^bonds
+      terms, refused above 16 bonds);
+    * `tncoset R C f aI aX aY aZ` → `n`: `cosetProb` of `f` for the MODEL's `Planar.stabilizers R C` (the spec the
+      theorem `planar_tn_value` talks about; the `cosets` op uses the real code's matrices instead). -/
 def c10 : List String → Option String
   | ["cosets", sS, sL, sf, a, b, c, d] => do
       let S ← parseMat? sS
@@ -69,6 +89,21 @@ def c10 : List String → Option String
       let tbl := pairs T
       let dec : BVec → BVec := fun s => ((tbl.find? fun p => p.1 == s).map (·.2)).getD (zeros m)
       pure (toString (successProb dist S m dec))
+  | ["tn", sR, sC, sf, a, b, c, d] => do
+      let (R, C, f, dist) ← tnArgs? sR sC sf a b c d
+      let tn := PlanarTn.planarTn R C dist f
+      pure s!"ok {tn.nrows}x{tn.ncols} {C11.showMPS tn.a.toList}"
+  | ["tnvalue", sR, sC, sf, a, b, c, d] => do
+      let (R, C, f, dist) ← tnArgs? sR sC sf a b c d
+      pure (C11.showRes C11.showResult (PlanarTn.tnValue R C dist f))
+  | ["tnexact", sR, sC, sf, a, b, c, d] => do
+      let (R, C, f, dist) ← tnArgs? sR sC sf a b c d
+      let tn := PlanarTn.planarTn R C dist f
+      if Tensor.nAssignments tn > 65536 then none else
+      pure (match Tensor.exactValue tn with | some v => "ok " ++ toString v | none => "undefined")
+  | ["tncoset", sR, sC, sf, a, b, c, d] => do
+      let (R, C, f, dist) ← tnArgs? sR sC sf a b c d
+      pure (toString (cosetProb dist (Planar.stabilizers R C) f))
   | _ => none
 
 end Qec.Drv
